@@ -67,6 +67,9 @@ def _mode_flag_expr(db, f, e):
                 args = call_args(e)
                 if bd and bd[0] == "param" and bd[1] < len(args):
                     return nf(args[bd[1]]), {k: flag_names(v) for k, v in am.items()}
+            elif "A" in am and "B" in am and nf(sc).startswith("self.") and call_args(e) and nf(call_args(e)[0]) == "self":
+                # a `&self` helper that looks at a field of the same object
+                return nf(sc), {k: flag_names(v) for k, v in am.items()}
     return None
 
 
@@ -350,3 +353,10 @@ def fixups(db, ctx):
 def field_source_reeval(db, ctx):
     from . import C05
     C05.field_source(db, ctx)
+
+
+@rule("C09.order", "A/B splitting is the LAST step of the analysis: the path-rewrite plugins run on the mode-C path and split_path afterwards (re-evaluation of "
+                   "C14.order — splitting first lets numeral / katakana joining re-merge units and erase C boundaries)")
+def order_reeval(db, ctx):
+    from . import C14
+    C14.order(db, ctx)
